@@ -403,7 +403,7 @@ fn check_accessors(name: &Name, w: &[u8]) {
     assert!(same(name.wire_repr_to(k.n), w), "[C16] wire_repr_to(len()) is the whole name");
 }
 
-// @harness props=C16 tier=quick mem=4 t=900 fn="Name::try_from_uncompressed_all,new_boxed_name,Name::len,Name::is_root,Name::is_wildcard,Name::labels,Labels::next,Labels::next_back,<Name as Index>::index,Name::wire_repr,Name::wire_repr_from,Name::wire_repr_to,Label::octets,Label::len,Label::is_null"
+// @harness props=C16 tier=quick mem=3 t=900 fn="Name::try_from_uncompressed_all,new_boxed_name,Name::len,Name::is_root,Name::is_wildcard,Name::labels,Labels::next,Labels::next_back,<Name as Index>::index,Name::wire_repr,Name::wire_repr_from,Name::wire_repr_to,Label::octets,Label::len,Label::is_null"
 //   bound="Box<Name> from the real constructor, all 7 shapes with <= 2 non-root labels of 1..=2 octets (and the root), every octet value; unwind 9"
 //   sym="shape<7, o:[u8;4]"
 #[kani::proof]
@@ -420,7 +420,7 @@ fn c16_accessors() {
     kani::cover!(s == 0, "root");
 }
 
-// @harness props=C16 tier=quick mem=4 t=900 fn="Name::len,Name::is_root,Name::is_wildcard,Name::labels,Labels::next,Labels::next_back,<Name as Index>::index,Name::wire_repr,Name::wire_repr_from,Name::wire_repr_to,Label::octets,Label::len,Label::is_null"
+// @harness props=C16 tier=thorough mem=5 t=1500 fn="Name::len,Name::is_root,Name::is_wildcard,Name::labels,Labels::next,Labels::next_back,<Name as Index>::index,Name::wire_repr,Name::wire_repr_from,Name::wire_repr_to,Label::octets,Label::len,Label::is_null"
 //   bound="every valid name of wire length <= 7 (any number of labels, any label lengths, every octet value), stack view; unwind 9"
 //   sym="buf:[u8;7], len<=7"
 #[kani::proof]
@@ -456,7 +456,7 @@ fn check_superdomain(name: &Name, w: &[u8]) {
     }
 }
 
-// @harness props=C16 tier=quick mem=6 t=1200 fn="Name::superdomain,new_boxed_name,Name::initialize_into"
+// @harness props=C16 tier=quick mem=4 t=900 fn="Name::superdomain,new_boxed_name,Name::initialize_into"
 //   bound="all 7 shapes with <= 2 non-root labels of 1..=2 octets (and the root), every octet value, every skip count (usize); the result is checked through its private representation (label count, offsets, wire); unwind 9"
 //   sym="shape<7, o:[u8;4], skip:usize"
 #[kani::proof]
@@ -484,7 +484,7 @@ fn check_make_lowercase(st: &Stack) {
     assert!(same(copy.wire(), want), "[C16] make_ascii_lowercase() lower-cases exactly the ASCII letters");
 }
 
-// @harness props=C16 tier=quick mem=4 t=900 fn="Name::make_ascii_lowercase,<Name as IndexMut>::index_mut,Label::octets_mut"
+// @harness props=C16 tier=quick mem=2 t=600 fn="Name::make_ascii_lowercase,<Name as IndexMut>::index_mut,Label::octets_mut"
 //   bound="every valid name of wire length <= 7 (all shapes), every octet value, stack view; unwind 9"
 //   sym="buf:[u8;7], len<=7"
 #[kani::proof]
@@ -511,7 +511,7 @@ fn check_lowercase_name(name: &Name, w: &[u8]) {
     std::mem::forget(back);
 }
 
-// @harness props=C16 tier=quick mem=6 t=1200 fn="<Name as ToOwned>::to_owned,<Box<LowercaseName> as From<Box<Name>>>::from,<Box<Name> as From<Box<LowercaseName>>>::from,<LowercaseName as Deref>::deref,Name::make_ascii_lowercase"
+// @harness props=C16 tier=quick mem=2 t=600 fn="<Name as ToOwned>::to_owned,<Box<LowercaseName> as From<Box<Name>>>::from,<Box<Name> as From<Box<LowercaseName>>>::from,<LowercaseName as Deref>::deref,Name::make_ascii_lowercase"
 //   bound="all 7 shapes with <= 2 non-root labels of 1..=2 octets (and the root), every octet value; unwind 9"
 //   sym="shape<7, o:[u8;4]"
 #[kani::proof]
@@ -554,7 +554,7 @@ fn check_eq(a: &Stack, b: &Stack) {
     kani::cover!(!eq && a.wl == 3 && b.wl == 3 && (a.wire()[1] ^ b.wire()[1]) == 0x20, "unequal names that differ only in bit 5 of a non-letter");
 }
 
-// @harness props=C16 tier=quick mem=4 t=900 fn="<Name as PartialEq>::eq,<Label as PartialEq>::eq,Name::labels"
+// @harness props=C16 tier=quick mem=5 t=1200 fn="<Name as PartialEq>::eq,<Label as PartialEq>::eq,Name::labels"
 //   bound="49 ordered shape pairs (<= 2 non-root labels of 1..=2 octets, and the root), every octet value in both names, stack view; unwind 9"
 //   sym="sa,sb<7, oa,ob:[u8;4]"
 #[kani::proof]
@@ -563,7 +563,7 @@ fn c16_eq_2x2() {
     pair_2x2(check_eq);
 }
 
-// @harness props=C16 tier=quick mem=4 t=900 fn="<Name as PartialEq>::eq,<Label as PartialEq>::eq,Name::labels"
+// @harness props=C16 tier=thorough mem=8 t=2400 fn="<Name as PartialEq>::eq,<Label as PartialEq>::eq,Name::labels"
 //   bound="every ordered pair of valid names of wire length <= 5 (all shapes, every octet value), stack view; unwind 7"
 //   sym="a,b: buf:[u8;5], len<=5"
 #[kani::proof]
@@ -572,7 +572,7 @@ fn c16_eq_w5() {
     check_eq(&any_name::<5>(), &any_name::<5>());
 }
 
-// @harness props=C16 tier=thorough mem=8 t=2400 fn="<Name as PartialEq>::eq,<Label as PartialEq>::eq,Name::labels"
+// @harness props=C16 tier=thorough mem=12 t=3400 fn="<Name as PartialEq>::eq,<Label as PartialEq>::eq,Name::labels"
 //   bound="every ordered pair of valid names of wire length <= 7 (all shapes, every octet value), stack view; unwind 9"
 //   sym="a,b: buf:[u8;7], len<=7"
 #[kani::proof]
@@ -595,7 +595,7 @@ fn check_cmp(a: &Stack, b: &Stack) {
     kani::cover!(c == Ordering::Less && a.n == 2 && b.n == 2 && a.wl > b.wl, "shorter label first only when it is a prefix");
 }
 
-// @harness props=C16 tier=quick mem=8 t=1500 fn="<Name as Ord>::cmp,<Label as Ord>::cmp,<Name as PartialEq>::eq,Name::labels,Labels::next_back"
+// @harness props=C16 tier=thorough mem=9 t=3000 fn="<Name as Ord>::cmp,<Label as Ord>::cmp,<Name as PartialEq>::eq,Name::labels,Labels::next_back"
 //   bound="49 ordered shape pairs (<= 2 non-root labels of 1..=2 octets, and the root), every octet value in both names, stack view; unwind 9"
 //   sym="sa,sb<7, oa,ob:[u8;4]"
 #[kani::proof]
@@ -604,7 +604,7 @@ fn c16_cmp_2x2() {
     pair_2x2(check_cmp);
 }
 
-// @harness props=C16 tier=quick mem=6 t=1200 fn="<Name as Ord>::cmp,<Label as Ord>::cmp,<Name as PartialEq>::eq,Name::labels,Labels::next_back"
+// @harness props=C16 tier=quick mem=6 t=2400 fn="<Name as Ord>::cmp,<Label as Ord>::cmp,<Name as PartialEq>::eq,Name::labels,Labels::next_back"
 //   bound="every ordered pair of valid names of wire length <= 5 (all shapes, every octet value), stack view; unwind 7"
 //   sym="a,b: buf:[u8;5], len<=5"
 #[kani::proof]
@@ -613,7 +613,7 @@ fn c16_cmp_w5() {
     check_cmp(&any_name::<5>(), &any_name::<5>());
 }
 
-// @harness props=C16 tier=thorough mem=10 t=3000 fn="<Name as Ord>::cmp,<Label as Ord>::cmp,<Name as PartialEq>::eq,Name::labels,Labels::next_back"
+// @harness props=C16 tier=thorough mem=14 t=3400 fn="<Name as Ord>::cmp,<Label as Ord>::cmp,<Name as PartialEq>::eq,Name::labels,Labels::next_back"
 //   bound="every ordered pair of valid names of wire length <= 7 (all shapes, every octet value), stack view; unwind 9"
 //   sym="a,b: buf:[u8;7], len<=7"
 #[kani::proof]
@@ -630,7 +630,7 @@ fn check_cmp_antisym(a: &Stack, b: &Stack) {
     kani::cover!(c == Ordering::Equal && a.n == 3, "Equal");
 }
 
-// @harness props=C16 tier=quick mem=8 t=1500 fn="<Name as Ord>::cmp,<Name as PartialOrd>::partial_cmp,<Label as Ord>::cmp"
+// @harness props=C16 tier=quick mem=9 t=3000 fn="<Name as Ord>::cmp,<Name as PartialOrd>::partial_cmp,<Label as Ord>::cmp"
 //   bound="every ordered pair of valid names of wire length <= 5 (all shapes, every octet value), stack view; unwind 7"
 //   sym="a,b: buf:[u8;5], len<=5"
 #[kani::proof]
@@ -639,7 +639,7 @@ fn c16_cmp_antisymmetric_w5() {
     check_cmp_antisym(&any_name::<5>(), &any_name::<5>());
 }
 
-// @harness props=C16 tier=thorough mem=12 t=3000 fn="<Name as Ord>::cmp,<Name as PartialOrd>::partial_cmp,<Label as Ord>::cmp"
+// @harness props=C16 tier=thorough mem=14 t=3400 fn="<Name as Ord>::cmp,<Name as PartialOrd>::partial_cmp,<Label as Ord>::cmp"
 //   bound="every ordered pair of valid names of wire length <= 7 (all shapes, every octet value), stack view; unwind 9"
 //   sym="a,b: buf:[u8;7], len<=7"
 #[kani::proof]
@@ -662,7 +662,7 @@ fn check_hash(a: &Stack, b: &Stack) {
     kani::cover!(!eq && a.wl == b.wl && a.wl >= 5 && a.wire()[0] != b.wire()[0], "same octet count, different label structure");
 }
 
-// @harness props=C16 tier=quick mem=4 t=900 fn="<Name as Hash>::hash,<Label as Hash>::hash"
+// @harness props=C16 tier=quick mem=5 t=1800 fn="<Name as Hash>::hash,<Label as Hash>::hash"
 //   bound="49 ordered shape pairs (<= 2 non-root labels of 1..=2 octets, and the root), every octet value in both names; recording Hasher (no SipHash); unwind 9"
 //   sym="sa,sb<7, oa,ob:[u8;4]"
 #[kani::proof]
@@ -671,7 +671,7 @@ fn c16_hash_2x2() {
     pair_2x2(check_hash);
 }
 
-// @harness props=C16 tier=thorough mem=8 t=2400 fn="<Name as Hash>::hash,<Label as Hash>::hash"
+// @harness props=C16 tier=thorough mem=12 t=3400 fn="<Name as Hash>::hash,<Label as Hash>::hash"
 //   bound="every ordered pair of valid names of wire length <= 7 (all shapes, every octet value); recording Hasher; unwind 9"
 //   sym="a,b: buf:[u8;7], len<=7"
 #[kani::proof]
@@ -692,7 +692,7 @@ fn check_hash_matches_eq(a: &Stack, b: &Stack) {
     }
 }
 
-// @harness props=C16 tier=quick mem=6 t=1200 fn="<Name as Hash>::hash,<Label as Hash>::hash,<Name as PartialEq>::eq"
+// @harness props=C16 tier=thorough mem=5 t=1500 fn="<Name as Hash>::hash,<Label as Hash>::hash,<Name as PartialEq>::eq"
 //   bound="every ordered pair of valid names of wire length <= 5 (all shapes, every octet value); recording Hasher; unwind 7"
 //   sym="a,b: buf:[u8;5], len<=5"
 #[kani::proof]
@@ -719,7 +719,7 @@ fn c16_eq_or_subdomain_of_2x2() {
     pair_2x2(check_sub);
 }
 
-// @harness props=C16 tier=thorough mem=8 t=2400 fn="Name::eq_or_subdomain_of,<Label as PartialEq>::eq,Name::labels,Labels::next_back"
+// @harness props=C16 tier=thorough mem=12 t=3400 fn="Name::eq_or_subdomain_of,<Label as PartialEq>::eq,Name::labels,Labels::next_back"
 //   bound="every ordered pair of valid names of wire length <= 7 (all shapes, every octet value), stack view; unwind 9"
 //   sym="a,b: buf:[u8;7], len<=7"
 #[kani::proof]
@@ -753,7 +753,7 @@ fn check_cmp_transitive(a: &Stack, b: &Stack, c: &Stack) {
     }
 }
 
-// @harness props=C16 tier=quick mem=6 t=1200 fn="<Name as PartialEq>::eq,<Label as PartialEq>::eq"
+// @harness props=C16 tier=quick mem=8 t=2400 fn="<Name as PartialEq>::eq,<Label as PartialEq>::eq"
 //   bound="every triple of valid names of wire length <= 5 (all shapes, every octet value), stack view; unwind 7"
 //   sym="a,b,c: buf:[u8;5], len<=5"
 #[kani::proof]
@@ -762,7 +762,7 @@ fn c16_eq_transitive_w5() {
     check_eq_transitive(&any_name::<5>(), &any_name::<5>(), &any_name::<5>());
 }
 
-// @harness props=C16 tier=quick mem=8 t=1800 fn="<Name as Ord>::cmp,<Label as Ord>::cmp"
+// @harness props=C16 tier=quick mem=9 t=3000 fn="<Name as Ord>::cmp,<Label as Ord>::cmp"
 //   bound="every triple of valid names of wire length <= 5 (all shapes, every octet value), stack view; unwind 7"
 //   sym="a,b,c: buf:[u8;5], len<=5"
 #[kani::proof]
@@ -771,7 +771,7 @@ fn c16_cmp_transitive_w5() {
     check_cmp_transitive(&any_name::<5>(), &any_name::<5>(), &any_name::<5>());
 }
 
-// @harness props=C16 tier=thorough mem=12 t=3400 fn="<Name as PartialEq>::eq,<Label as PartialEq>::eq"
+// @harness props=C16 tier=thorough mem=14 t=3400 fn="<Name as PartialEq>::eq,<Label as PartialEq>::eq"
 //   bound="every triple of valid names of wire length <= 7 (all shapes incl. 2 labels x 2 octets, every octet value), stack view; unwind 9"
 //   sym="a,b,c: buf:[u8;7], len<=7"
 #[kani::proof]
@@ -843,7 +843,7 @@ fn special(o: u8) -> bool {
     o == b'.' || o == b'\\' || o == b' ' || o == b'*' || o >= 0x80 || o == 0 || o == 0x7f
 }
 
-// @harness props=C16 tier=quick mem=3 t=600 fn="<Name as Display>::fmt,<Box<Name> as FromStr>::from_str"
+// @harness props=C16 tier=quick mem=2 t=600 fn="<Name as Display>::fmt,<Box<Name> as FromStr>::from_str"
 //   bound="the root name (concrete); unwind 4" sym="none"
 #[kani::proof]
 #[kani::unwind(4)]
@@ -852,7 +852,7 @@ fn c16_roundtrip_root() {
     kani::cover!(true, "root rendered and parsed");
 }
 
-// @harness props=C16 tier=quick mem=6 t=1200 fn="<Name as Display>::fmt,<Label as Display>::fmt,<Box<Name> as FromStr>::from_str,parse_escape,NameBuilder::try_push,NameBuilder::next_label,NameBuilder::finish"
+// @harness props=C16 tier=quick mem=4 t=1500 fn="<Name as Display>::fmt,<Label as Display>::fmt,<Box<Name> as FromStr>::from_str,parse_escape,NameBuilder::try_push,NameBuilder::next_label,NameBuilder::finish"
 //   bound="every name of one 1-octet label (256 names); unwind 8" sym="a:u8"
 #[kani::proof]
 #[kani::unwind(8)]
@@ -866,7 +866,7 @@ fn c16_roundtrip_1() {
     kani::cover!(a == b'7', "label is a digit");
 }
 
-// @harness props=C16 tier=quick mem=8 t=1800 fn="<Name as Display>::fmt,<Label as Display>::fmt,<Box<Name> as FromStr>::from_str,parse_escape,NameBuilder::try_push,NameBuilder::next_label,NameBuilder::finish"
+// @harness props=C16 tier=thorough mem=6 t=3000 fn="<Name as Display>::fmt,<Label as Display>::fmt,<Box<Name> as FromStr>::from_str,parse_escape,NameBuilder::try_push,NameBuilder::next_label,NameBuilder::finish"
 //   bound="every name of one 2-octet label (65 536 names); unwind 12" sym="a,b:u8"
 #[kani::proof]
 #[kani::unwind(12)]
@@ -879,7 +879,7 @@ fn c16_roundtrip_2() {
     kani::cover!(a >= 0x80 && b == b' ', "non-ASCII then space");
 }
 
-// @harness props=C16 tier=quick mem=8 t=1800 fn="<Name as Display>::fmt,<Label as Display>::fmt,<Box<Name> as FromStr>::from_str,parse_escape,NameBuilder::try_push,NameBuilder::next_label,NameBuilder::finish"
+// @harness props=C16 tier=thorough mem=7 t=3000 fn="<Name as Display>::fmt,<Label as Display>::fmt,<Box<Name> as FromStr>::from_str,parse_escape,NameBuilder::try_push,NameBuilder::next_label,NameBuilder::finish"
 //   bound="every name of two 1-octet labels (65 536 names); unwind 13" sym="a,b:u8"
 #[kani::proof]
 #[kani::unwind(13)]
@@ -892,7 +892,7 @@ fn c16_roundtrip_1_1() {
     kani::cover!(special(a) && special(b), "both labels need care");
 }
 
-// @harness props=C16 tier=thorough mem=12 t=3000 fn="<Name as Display>::fmt,<Label as Display>::fmt,<Box<Name> as FromStr>::from_str,parse_escape"
+// @harness props=C16 tier=thorough mem=10 t=3400 fn="<Name as Display>::fmt,<Label as Display>::fmt,<Box<Name> as FromStr>::from_str,parse_escape"
 //   bound="every name of labels (1,2) octets (2^24 names); unwind 17" sym="a,b,c:u8"
 #[kani::proof]
 #[kani::unwind(17)]
@@ -902,7 +902,7 @@ fn c16_roundtrip_1_2() {
     kani::cover!(special(o[0]) && special(o[1]) && special(o[2]), "all octets need care");
 }
 
-// @harness props=C16 tier=thorough mem=12 t=3000 fn="<Name as Display>::fmt,<Label as Display>::fmt,<Box<Name> as FromStr>::from_str,parse_escape"
+// @harness props=C16 tier=thorough mem=10 t=3400 fn="<Name as Display>::fmt,<Label as Display>::fmt,<Box<Name> as FromStr>::from_str,parse_escape"
 //   bound="every name of labels (2,1) octets (2^24 names); unwind 17" sym="a,b,c:u8"
 #[kani::proof]
 #[kani::unwind(17)]
@@ -912,7 +912,7 @@ fn c16_roundtrip_2_1() {
     kani::cover!(special(o[0]) && special(o[1]) && special(o[2]), "all octets need care");
 }
 
-// @harness props=C16 tier=thorough mem=14 t=3400 fn="<Name as Display>::fmt,<Label as Display>::fmt,<Box<Name> as FromStr>::from_str,parse_escape"
+// @harness props=C16 tier=thorough mem=12 t=3400 fn="<Name as Display>::fmt,<Label as Display>::fmt,<Box<Name> as FromStr>::from_str,parse_escape"
 //   bound="every name of labels (2,2) octets (2^32 names); unwind 21" sym="a,b,c,d:u8"
 #[kani::proof]
 #[kani::unwind(21)]
@@ -1085,7 +1085,7 @@ fn accept<const N: usize>() -> ([u8; N], Option<usize>) {
     (bytes, labels)
 }
 
-// @harness props=C16 tier=quick mem=3 t=600 fn="<Box<Name> as FromStr>::from_str,parse_escape,NameBuilder::try_push,NameBuilder::next_label,NameBuilder::finish"
+// @harness props=C16 tier=quick mem=2 t=600 fn="<Box<Name> as FromStr>::from_str,parse_escape,NameBuilder::try_push,NameBuilder::next_label,NameBuilder::finish"
 //   bound="every str of exactly 1 octet, and the empty str; unwind 4" sym="bytes:[u8;1]"
 #[kani::proof]
 #[kani::unwind(4)]
@@ -1096,7 +1096,7 @@ fn c16_fromstr_len1() {
     kani::cover!(ok.is_none() && b[0] == b'a', "rejected a relative name");
 }
 
-// @harness props=C16 tier=quick mem=4 t=900 fn="<Box<Name> as FromStr>::from_str,parse_escape,NameBuilder::try_push,NameBuilder::next_label,NameBuilder::finish"
+// @harness props=C16 tier=quick mem=3 t=900 fn="<Box<Name> as FromStr>::from_str,parse_escape,NameBuilder::try_push,NameBuilder::next_label,NameBuilder::finish"
 //   bound="every well-formed UTF-8 str of exactly 2 octets; unwind 5" sym="bytes:[u8;2]"
 #[kani::proof]
 #[kani::unwind(5)]
@@ -1108,7 +1108,7 @@ fn c16_fromstr_len2() {
     kani::cover!(ok.is_none() && b[0] >= 0xc2, "rejected a two-octet character");
 }
 
-// @harness props=C16 tier=quick mem=6 t=1200 fn="<Box<Name> as FromStr>::from_str,parse_escape,NameBuilder::try_push,NameBuilder::next_label,NameBuilder::finish"
+// @harness props=C16 tier=quick mem=3 t=1500 fn="<Box<Name> as FromStr>::from_str,parse_escape,NameBuilder::try_push,NameBuilder::next_label,NameBuilder::finish"
 //   bound="every well-formed UTF-8 str of exactly 3 octets; unwind 6" sym="bytes:[u8;3]"
 #[kani::proof]
 #[kani::unwind(6)]
@@ -1121,7 +1121,7 @@ fn c16_fromstr_len3() {
     kani::cover!(ok.is_none() && b[0] == b'\\' && b[1] == b'1', "rejected a truncated decimal escape");
 }
 
-// @harness props=C16 tier=quick mem=8 t=1800 fn="<Box<Name> as FromStr>::from_str,parse_escape,NameBuilder::try_push,NameBuilder::next_label,NameBuilder::finish"
+// @harness props=C16 tier=thorough mem=4 t=1500 fn="<Box<Name> as FromStr>::from_str,parse_escape,NameBuilder::try_push,NameBuilder::next_label,NameBuilder::finish"
 //   bound="every well-formed UTF-8 str of exactly 4 octets; unwind 7" sym="bytes:[u8;4]"
 #[kani::proof]
 #[kani::unwind(7)]
@@ -1133,7 +1133,7 @@ fn c16_fromstr_len4() {
     kani::cover!(ok.is_none() && b[0] >= 0xf0, "rejected a four-octet character");
 }
 
-// @harness props=C16 tier=thorough mem=10 t=2400 fn="<Box<Name> as FromStr>::from_str,parse_escape,NameBuilder::try_push,NameBuilder::next_label,NameBuilder::finish"
+// @harness props=C16 tier=thorough mem=6 t=3000 fn="<Box<Name> as FromStr>::from_str,parse_escape,NameBuilder::try_push,NameBuilder::next_label,NameBuilder::finish"
 //   bound="every well-formed UTF-8 str of exactly 5 octets; unwind 8" sym="bytes:[u8;5]"
 #[kani::proof]
 #[kani::unwind(8)]
@@ -1144,7 +1144,7 @@ fn c16_fromstr_len5() {
     kani::cover!(ok == Some(3), "accepted two labels");
 }
 
-// @harness props=C16 tier=thorough mem=12 t=3000 fn="<Box<Name> as FromStr>::from_str,parse_escape,NameBuilder::try_push,NameBuilder::next_label,NameBuilder::finish"
+// @harness props=C16 tier=thorough mem=8 t=3400 fn="<Box<Name> as FromStr>::from_str,parse_escape,NameBuilder::try_push,NameBuilder::next_label,NameBuilder::finish"
 //   bound="every well-formed UTF-8 str of exactly 6 octets; unwind 9" sym="bytes:[u8;6]"
 #[kani::proof]
 #[kani::unwind(9)]
@@ -1169,7 +1169,7 @@ fn label_of(buf: &[u8]) -> &Label {
     }
 }
 
-// @harness props=C16 tier=quick mem=4 t=900 fn="<&Label as TryFrom<&[u8]>>::try_from,<Label as PartialEq>::eq,<Label as Ord>::cmp,<Label as PartialOrd>::partial_cmp,<Label as Hash>::hash,Label::octets,Label::len,Label::is_null,Label::is_asterisk"
+// @harness props=C16 tier=quick mem=2 t=600 fn="<&Label as TryFrom<&[u8]>>::try_from,<Label as PartialEq>::eq,<Label as Ord>::cmp,<Label as PartialOrd>::partial_cmp,<Label as Hash>::hash,Label::octets,Label::len,Label::is_null,Label::is_asterisk"
 //   bound="every ordered pair of labels of 0..=4 octets each (symbolic lengths, every octet value); unwind 6"
 //   sym="x,y:[u8;4], lx,ly<=4"
 #[kani::proof]
@@ -1204,7 +1204,7 @@ fn c16_label_pair_len4() {
     kani::cover!(c == Ordering::Greater && x[0] >= 0x80 && lx > 0 && ly > 0, "octets compare unsigned");
 }
 
-// @harness props=C16 tier=quick mem=4 t=900 fn="<LabelBuf as From<&[u8; N]>>::from,<LabelBuf as TryFrom<&[u8]>>::try_from,<&Label as TryFrom<&[u8]>>::try_from,<LabelBuf as Deref>::deref,<Label as ToOwned>::to_owned,<LabelBuf as PartialEq>::eq,<LabelBuf as Ord>::cmp,<LabelBuf as Hash>::hash"
+// @harness props=C16 tier=quick mem=2 t=600 fn="<LabelBuf as From<&[u8; N]>>::from,<LabelBuf as TryFrom<&[u8]>>::try_from,<&Label as TryFrom<&[u8]>>::try_from,<LabelBuf as Deref>::deref,<Label as ToOwned>::to_owned,<LabelBuf as PartialEq>::eq,<LabelBuf as Ord>::cmp,<LabelBuf as Hash>::hash"
 //   bound="LabelBuf of 2 and 3 symbolic octets (every octet value) against the Label results; length limit at 63 / 64 octets (concrete zero-filled slices, symbolic length <= 70 for &Label); unwind 66"
 //   sym="x:[u8;2], y:[u8;3], n<=70"
 #[kani::proof]
@@ -1241,4 +1241,34 @@ fn c16_labelbuf() {
     kani::cover!(n == 63, "63-octet label");
     kani::cover!(n == 64, "64-octet slice");
     kani::cover!(x[0] == b'A' && y[0] == b'a' && x[1] == y[1], "prefix up to case");
+}
+
+// --------------------------------------------------------------------------
+// (d) the 63 / 64 label boundary end to end through FromStr, concrete text
+//     (the general argument is the one-step induction in name_builder.rs)
+// --------------------------------------------------------------------------
+
+// @harness props=C16 tier=thorough mem=6 t=3000 fn="<Box<Name> as FromStr>::from_str,NameBuilder::try_push,NameBuilder::next_label,NameBuilder::finish"
+//   bound="2 concrete texts: one label of 63 x's (accepted, 65-octet wire form) and one of 64 x's (rejected); unwind 68"
+//   sym="none (concrete boundary case)"
+#[kani::proof]
+#[kani::unwind(68)]
+fn c16_fromstr_label_63_64() {
+    let mut t63 = [b'x'; 64];
+    t63[63] = b'.';
+    // ASCII by construction
+    let text = unsafe { std::str::from_utf8_unchecked(&t63) };
+    match text.parse::<Box<Name>>() {
+        Ok(n) => {
+            assert!(n.wire_repr().len() == 65 && n.len() == 2, "[C16] FromStr accepts a 63-octet label");
+            assert!(n.wire_repr()[0] == 63 && n.wire_repr()[63] == b'x' && n.wire_repr()[64] == 0, "[C16] FromStr accepts a 63-octet label");
+            std::mem::forget(n);
+        }
+        Err(_) => assert!(false, "[C16] FromStr accepts a 63-octet label"),
+    }
+    let mut t64 = [b'x'; 65];
+    t64[64] = b'.';
+    let text = unsafe { std::str::from_utf8_unchecked(&t64) };
+    assert!(text.parse::<Box<Name>>().is_err(), "[C16] FromStr rejects a 64-octet label");
+    kani::cover!(true, "both texts parsed");
 }
